@@ -465,3 +465,39 @@ func mustPassAfterEdge(fn *an.Fn, e an.Edge, target an.Point, via []an.Point) bo
 	r := fn.Reach(an.Point{B: e.B, I: len(e.B.Nodes) - 1}, bp, edgesExcept(e))
 	return !r[target]
 }
+
+// edgesTakenWhen returns the outcome edges a condition can take when an atom accepted by pred
+// has the truth value pred names: the forced outcome if that value decides the whole condition
+// (expired in `len(x) == 0 || expired`), otherwise both outcomes.
+func edgesTakenWhen(fn *an.Fn, pred func(atom ast.Expr) (bool, bool)) []an.Edge {
+	var out []an.Edge
+	for _, b := range fn.G.Blocks {
+		if !b.Live {
+			continue
+		}
+		t, f, ok := an.CondEdges(b)
+		if !ok {
+			continue
+		}
+		cond := b.Nodes[len(b.Nodes)-1].(ast.Expr)
+		if !isBoolExpr(fn.Info, cond) {
+			continue
+		}
+		for _, a := range condAtoms(cond) {
+			m, val := pred(a)
+			if !m {
+				continue
+			}
+			if o, det := forcedOutcome(cond, a, val); det {
+				if o {
+					out = append(out, t)
+				} else {
+					out = append(out, f)
+				}
+			} else {
+				out = append(out, t, f)
+			}
+		}
+	}
+	return out
+}
